@@ -65,7 +65,7 @@ TDeliver ==
                        "KF:clientRibAckForUnknownIdAccepted")
              \* every snapshot Status() returned while the receiver was working accounts for every
              \* operation handed over: pending, or present in the results (never lost in between)
-             \cup Flag(\E i \in DOMAIN Ev.snaps : \E id \in handed :
+             \cup Flag(\E i \in DOMAIN Ev.snaps : \E id \in handed \ acked :
                           id \notin {Ev.snaps[i].pend[j] : j \in DOMAIN Ev.snaps[i].pend}
                           /\ id \notin {Ev.snaps[i].res[j] : j \in DOMAIN Ev.snaps[i].res}, "clientSnapshotLosesOperation"))
      ELSE UNCHANGED cvars /\ Report({"clientDeliverToDeadReceiver"})
@@ -73,6 +73,14 @@ TDeliver ==
 TRecvFail == ~dead /\ IsEvent("crecvfail") /\ (IF receiver = "alive" THEN CRecvFail ELSE UNCHANGED cvars) /\ Report(StDiff(Ev.st)) /\ UNCHANGED dead
 TRecvEOF == ~dead /\ IsEvent("crecveof") /\ (IF receiver = "alive" THEN CRecvEOF ELSE UNCHANGED cvars) /\ Report(StDiff(Ev.st)) /\ UNCHANGED dead
 TSendFail == ~dead /\ IsEvent("csendfail") /\ CSetSendFail(Ev.n) /\ UNCHANGED dead
+\* AckResult: alone ("st" logged), or straddled by the receiver handling a response (then the state is compared at the
+\* cdeliver event that follows)
+TAck ==
+  /\ ~dead /\ IsEvent("cack")
+  /\ IF HasResultFor(Ev.id)
+     THEN CAck(Ev.id) /\ Report(Flag(Ev.err, "clientAckError") \cup (IF "st" \in DOMAIN Ev THEN StDiff(Ev.st) ELSE {}))
+     ELSE UNCHANGED cvars /\ Report(Flag(~Ev.err, "clientAckOfNothing"))
+  /\ UNCHANGED dead
 TAwait ==
   /\ ~dead /\ IsEvent("cawait")
   /\ UNCHANGED <<cvars, dead>>
@@ -91,7 +99,7 @@ TReset ==
                       \/ Ev.st.sendErrs # 0 \/ Ev.st.recvErrs # 0, "clientNotFreshAfterReset"))
   /\ UNCHANGED dead
 
-CTNext == TBurst \/ TDead \/ TNew \/ THang \/ TConnect \/ TQ \/ TStart \/ TDeliver \/ TRecvFail \/ TRecvEOF \/ TSendFail \/ TAwait \/ TClose \/ TReset
+CTNext == TAck \/ TBurst \/ TDead \/ TNew \/ THang \/ TConnect \/ TQ \/ TStart \/ TDeliver \/ TRecvFail \/ TRecvEOF \/ TSendFail \/ TAwait \/ TClose \/ TReset
 CTSpec == CTInit /\ [][CTNext]_ctvars
 
 Matched == TLCGet("stats").diameter - 1
